@@ -26,6 +26,30 @@ mod verif_c06 {
         assert!(back == v, "SPEC: COBS frame does not decode back to the value");
     }
 
+    /// multi-byte blocks handed to the flavour in ONE try_extend call (floats, strings) with zeros in any position:
+    /// the COBS flavour must transform them exactly like the same bytes pushed one by one
+    #[kani::proof]
+    #[kani::unwind(12)]
+    fn api_extend_block() {
+        let bits: u32 = kani::any();
+        let k: u8 = kani::any();
+        let v = (k, f32::from_bits(bits), k);
+        let mut plain = [0u8; 6];
+        let pl = to_slice(&v, &mut plain).unwrap().len();
+        let mut want = [0u8; 8];
+        let wl = ref_cobs(&plain[..pl], &mut want);
+        want[wl] = 0;
+        let mut buf = [0u8; 8];
+        let used = to_slice_cobs(&v, &mut buf).unwrap().len();
+        kani::cover!(plain[1] != 0 && plain[2] == 0 && plain[3] != 0);
+        assert!(used == wl + 1, "SPEC: framed length is |cobs(plain)| + 1");
+        let i: usize = kani::any();
+        kani::assume(i < used);
+        assert!(buf[i] == want[i], "SPEC: framed bytes differ from the standard COBS transform + sentinel");
+        let hv: heapless::Vec<u8, 8> = to_vec_cobs(&v).unwrap();
+        assert!(hv.len() == used && hv[i] == want[i], "SPEC: COBS over the fixed-capacity vector differs");
+    }
+
     /// several frames back to back: each call returns the value and exactly the bytes after its frame,
     /// whether or not the last frame's sentinel is present
     #[kani::proof]
